@@ -24,7 +24,11 @@ CHECKS = {
               'dataclass members, negative timedelta) the round trip is carried by the oracle: model of dump + load tied to the code '
               'by type-directed correspondence; round trip through dict, JSON text, list, YAML, TOML and JSON-file mixins, incl. '
               'tagged-config families with stand-alone-first histories, Unions declared in nested classes, recursive_classes and self-referential '
-              'main classes (dump first); arbitrary identifiers incl. names that coincide under case / underscore folding under NONE; directed '
+              'main classes (dump first); arbitrary identifiers incl. names that coincide under case / underscore folding under NONE; texts (values, elements, dict keys, below Any) over the '
+              'whole character range (C0 / C1 controls, U+2028/9, code-page / BMP / astral / format / non-characters, lone surrogates, scalar '
+              'look-alikes, long lines) through the YAML / TOML / JSON mixins in memory and through their *_file methods, "carried by the '
+              'format" decided by the standard writer and reader of the format, and the file round trips again in child interpreters under '
+              'every locale encoding of the machine (LC_ALL=C: ASCII) with UTF-8 mode off / on; directed '
               'reproductions of the recorded findings '),
         technique='Lean 4 proof over a hand model + differential correspondence + round-trip oracle', ref='4 C01'),
     'C02': dict(
